@@ -100,28 +100,31 @@ def lenBytes : Nat → Nat → Bytes
 
 /-! ## one element -/
 
+/-- the content read of one element, once its declared length `len` is known and accepted -/
+def decContent (s : Slot) (iei : UInt8) (len : Nat) (bs1 : Bytes) : Outcome (IEVal × Bytes) :=
+  match s.store with
+  | .octet =>
+    match bs1 with
+    | [] => .err .trunc
+    | b :: r => .ok (⟨iei, len, [b]⟩, r)
+  | .arr n =>
+    match s.span with
+    | .all => if bs1.length < n then .err .trunc else .ok (⟨iei, len, bs1.take n⟩, bs1.drop n)
+    | .toLen =>
+      if n < len then .panic
+      else if bs1.length < len then .err .trunc
+      else .ok (⟨iei, len, bs1.take len ++ List.replicate (n - len) 0⟩, bs1.drop len)
+  | .buf =>
+    let k := if s.alloc then len else 0
+    if bs1.length < k then .err .trunc else .ok (⟨iei, len, bs1.take k⟩, bs1.drop k)
+  | .unit => .ok (⟨iei, len, []⟩, bs1)
+
 /-- decode the body of one element (for an optional element: what follows the IEI octet) -/
 def decBody (s : Slot) (iei : UInt8) (bs : Bytes) : Outcome (IEVal × Bytes) :=
   match readLen s.lenSize bs with
   | none => .err .trunc
   | some (len, bs1) =>
-    if !s.guard.ok len then .err .badLen else
-    match s.store with
-    | .octet =>
-      match bs1 with
-      | [] => .err .trunc
-      | b :: r => .ok (⟨iei, len, [b]⟩, r)
-    | .arr n =>
-      match s.span with
-      | .all => if bs1.length < n then .err .trunc else .ok (⟨iei, len, bs1.take n⟩, bs1.drop n)
-      | .toLen =>
-        if n < len then .panic
-        else if bs1.length < len then .err .trunc
-        else .ok (⟨iei, len, bs1.take len ++ List.replicate (n - len) 0⟩, bs1.drop len)
-    | .buf =>
-      let k := if s.alloc then len else 0
-      if bs1.length < k then .err .trunc else .ok (⟨iei, len, bs1.take k⟩, bs1.drop k)
-    | .unit => .ok (⟨iei, len, []⟩, bs1)
+    if !s.guard.ok len then .err .badLen else decContent s iei len bs1
 
 /-- the content octets an encoder writes for a value -/
 def encContent (s : Slot) (v : IEVal) : Outcome Bytes :=
